@@ -23,14 +23,15 @@ func findOutputDeps(instrs []*instruction) {
 // findOutputDepsReg finds register-based output dependencies in the code.
 func findOutputDepsReg(ins *instruction, regs keyInsMap) {
 	for r := range ins.outRegs {
-		dep, ok := regs[r]
-		if !ok {
-			regs[r] = ins
-			continue
+		// We are certain that dep != ins.
+		if dep, ok := regs[r]; ok {
+			addDep(ins, dep)
 		}
 
-		// We are certain that i != ins.
-		addDep(ins, dep)
+		// Output dependencies are chained: a write depends on the
+		// closest following write of the same register. Dependency on
+		// any later write is then transitive.
+		regs[r] = ins
 	}
 }
 
